@@ -15,8 +15,8 @@ pub fn short(name: &str) -> String {
 
 #[derive(Default)]
 struct Rec {
-    /// open frames: (name, index, height before, sizes of the top three populations before (-1 = absent))
-    open: Vec<(String, usize, i64, [i64; 3])>,
+    /// open frames: (name, index, height before, sizes of the top three populations before (-1 = absent), visible Iterations before)
+    open: Vec<(String, usize, i64, [i64; 3], i64)>,
     /// completed steps in completion order: (name, height delta, size after, top three sizes before)
     steps: Vec<String>,
     /// loop passes: (loop nesting depth, height before, height after, size after)
@@ -28,6 +28,19 @@ struct Rec {
     n_steps: usize,
     /// innermost component that was executing when the run ended (for failed runs)
     failed_in: Option<String>,
+    /// completed loop passes per loop-nesting depth (not capped)
+    pcount: Vec<u64>,
+    /// executed leaf components across which the visible `Iterations` value changed (the loop model assumes none)
+    itouch: u64,
+    /// `Evaluations` at the start of every outermost pass (first 400), and at the end of the run
+    evals_before: Vec<i64>,
+    evals_final: i64,
+}
+fn iters_of<P: HProblem>(state: &State<P>) -> i64 {
+    state.try_get_value::<mahf::state::common::Iterations>().map(|v| v as i64).unwrap_or(-1)
+}
+fn evals_of<P: HProblem>(state: &State<P>) -> i64 {
+    state.try_get_value::<mahf::state::common::Evaluations>().map(|v| v as i64).unwrap_or(-1)
 }
 fn hs<P: HProblem>(state: &State<P>) -> (i64, i64) {
     match state.try_borrow::<Populations<P>>() {
@@ -51,10 +64,17 @@ impl Visitor for Rec {
         let n = short(name);
         if n == "LoopPass" {
             match phase {
-                Phase::Before => self.pass_open.push(h),
+                Phase::Before => {
+                    if self.pass_open.is_empty() && self.evals_before.len() < 400 {
+                        self.evals_before.push(evals_of(state));
+                    }
+                    self.pass_open.push(h)
+                }
                 Phase::After => {
                     let hb = self.pass_open.pop().unwrap_or(-9);
                     let depth = self.pass_open.len();
+                    if self.pcount.len() <= depth { self.pcount.resize(depth + 1, 0); }
+                    self.pcount[depth] += 1;
                     if self.passes.len() < 400 {
                         self.passes.push(format!("({} {} {} {})", depth, hb, h, sz));
                     }
@@ -63,10 +83,13 @@ impl Visitor for Rec {
             return;
         }
         match phase {
-            Phase::Before => self.open.push((n, index, h, top3(state))),
+            Phase::Before => self.open.push((n, index, h, top3(state), iters_of(state))),
             Phase::After => {
-                if let Some((bn, _bi, hb, b3)) = self.open.pop() {
+                if let Some((bn, _bi, hb, b3, ib)) = self.open.pop() {
                     self.n_steps += 1;
+                    if !["Block", "Loop", "Branch", "Scope"].contains(&bn.as_str()) && ib != iters_of(state) {
+                        self.itouch += 1;
+                    }
                     if self.steps.len() < 600 {
                         self.steps.push(format!("({} {} {} {} {} {})", bn, h - hb, sz, b3[0], b3[1], b3[2]));
                     }
@@ -75,10 +98,11 @@ impl Visitor for Rec {
         }
     }
     fn done<P: HProblem>(&mut self, _o: &Outcome, state: Option<&State<P>>, _p: &P) {
-        self.failed_in = self.open.iter().rev().map(|(n, _, _, _)| n.clone()).find(|n| !["Block", "Loop", "Branch", "Scope"].contains(&n.as_str()))
-            .or_else(|| self.open.last().map(|(n, _, _, _)| n.clone()));
+        self.failed_in = self.open.iter().rev().map(|(n, _, _, _, _)| n.clone()).find(|n| !["Block", "Loop", "Branch", "Scope"].contains(&n.as_str()))
+            .or_else(|| self.open.last().map(|(n, _, _, _, _)| n.clone()));
         if let Some(s) = state {
             self.iters = s.try_get_value::<mahf::state::common::Iterations>().ok();
+            self.evals_final = evals_of(s);
             let (h, sz) = hs(s);
             self.final_height = Some(h as usize);
             self.final_size = Some(sz as usize);
@@ -283,6 +307,12 @@ fn run_case(input: &Sx) -> String {
     if head == "sizeprobe" {
         return probe_case(input);
     }
+    if head == "prun" {
+        return prun_case(a);
+    }
+    if head == "ctor" {
+        return ctor_case(a);
+    }
     if head == "audit" {
         let name = a[0].atom().unwrap();
         let (variant, instance, iters, seed) = (a[1].nat().unwrap() as u32, a[2].nat().unwrap() as u32, a[3].nat().unwrap() as u32, a[4].nat().unwrap());
@@ -307,9 +337,449 @@ fn run_case(input: &Sx) -> String {
                 format!("(size {})", rec.final_size.map(|i| i.to_string()).unwrap_or("none".into())),
                 format!("(prescribed {} {})", lo, if hi == usize::MAX { "inf".to_string() } else { hi.to_string() }),
                 format!("(nsteps {})", rec.n_steps),
+                tagged("pcount", rec.pcount.iter().map(|c| c.to_string())),
+                format!("(itouch {})", rec.itouch),
                 tagged("passes", rec.passes),
                 tagged("steps", rec.steps),
             ])
+        }
+    }
+}
+
+
+// ---------------------------------------------------------------------------------------------
+// Explicit-parameter runs. The parameter point is part of the INPUT, so the Lean side can compute
+// from it what the template should look like (its size-relevant components with their arguments),
+// the prescribed population-size bound and the expected pass counts, instead of trusting a table in
+// the harness:
+//   `(prun NAME (ps p…) INSTANCE SEED (term KIND K N) TREE)`   KIND ∈ iters | evals | both | either
+//   `(ctor NAME (ps p…))`                                       constructor outcome only
+// Natural parameters travel as decimals, floats as `x` + 16 hex digits, in the order of `param_spec`.
+// ---------------------------------------------------------------------------------------------
+use hcommon::problems::{OneMax, Tsp};
+use mahf::conditions::LessThanN;
+use mahf::heuristics::*;
+use mahf::problems::Sequential;
+use mahf::verif::StepObserver;
+use std::sync::{Arc, Mutex};
+
+#[derive(Clone, Copy, PartialEq)]
+enum PK { N, F }
+use PK::{F as PF, N as PN};
+
+fn param_spec(name: &str) -> &'static [PK] {
+    match name {
+        "real_ga" | "binary_ga" => &[PN, PN, PF, PF, PF],
+        "real_es" => &[PN, PN, PF],
+        "real_de" => &[PN, PN, PF, PF],
+        "real_pso" => &[PN, PF, PF, PF, PF, PF],
+        "real_sa" => &[PF, PF, PF],
+        "permutation_sa" => &[PF, PF, PN],
+        "real_ls" => &[PN, PF],
+        "permutation_ls" => &[PN, PN],
+        "real_ils" => &[PN, PF, PN],
+        "permutation_ils" => &[PN, PN, PN],
+        "real_rs" | "permutation_rs" => &[],
+        "real_rw" => &[PF],
+        "permutation_rw" => &[PN],
+        "real_iwo" => &[PN, PN, PN, PN, PF, PF, PN],
+        "real_fa" => &[PN, PF, PF, PF, PF],
+        "real_bh" => &[PN],
+        "real_cro" => &[PN, PF, PF, PN, PF, PF, PF, PF, PF],
+        "ant_system" => &[PN, PF, PF, PF, PF, PF],
+        "max_min_ant_system" => &[PN, PF, PF, PF, PF, PF, PF],
+        _ => &[],
+    }
+}
+
+#[derive(Clone, Copy, Debug)]
+enum Term { Iters(u32), Evals(u32), Both(u32, u32), Either(u32, u32) }
+impl Term {
+    fn cond<P: mahf::Problem>(self) -> Box<dyn mahf::Condition<P>> {
+        match self {
+            Term::Iters(k) => LessThanN::iterations(k),
+            Term::Evals(n) => LessThanN::evaluations(n),
+            Term::Both(k, n) => LessThanN::iterations(k) & LessThanN::evaluations(n),
+            Term::Either(k, n) => LessThanN::iterations(k) | LessThanN::evaluations(n),
+        }
+    }
+    fn render(self) -> String {
+        match self {
+            Term::Iters(k) => format!("(term iters {} 0)", k),
+            Term::Evals(n) => format!("(term evals 0 {})", n),
+            Term::Both(k, n) => format!("(term both {} {})", k, n),
+            Term::Either(k, n) => format!("(term either {} {})", k, n),
+        }
+    }
+    fn parse(x: &Sx) -> Option<Term> {
+        let (h, a) = x.head()?;
+        if h != "term" { return None; }
+        let (k, n) = (a.get(1)?.nat()? as u32, a.get(2)?.nat()? as u32);
+        Some(match a.first()?.atom()? { "iters" => Term::Iters(k), "evals" => Term::Evals(n), "both" => Term::Both(k, n), "either" => Term::Either(k, n), _ => return None })
+    }
+}
+
+fn p_sphere(i: u32) -> Sphere {
+    match i {
+        0..=3 => sphere_instance(i),
+        4 => Sphere::new(1, 0.0, 1.0, 0.5),
+        _ => Sphere::new(4, -1.0e3, 1.0e3, 0.0),
+    }
+}
+fn p_onemax(i: u32) -> OneMax {
+    match i { 0..=3 => onemax_instance(i), 4 => OneMax::new(1), _ => OneMax::new(2) }
+}
+/// 4: two cities; 5: four cities, two of them at the same place (distance 0 between distinct cities); 6: three cities.
+fn p_tsp(i: u32) -> Tsp {
+    match i {
+        0..=3 => tsp_instance(i),
+        4 => Tsp::new(vec![vec![0.0, 2.5], vec![2.5, 0.0]]),
+        5 => Tsp::new(vec![
+            vec![0.0, 3.0, 3.0, 4.0],
+            vec![3.0, 0.0, 0.0, 5.0],
+            vec![3.0, 0.0, 0.0, 5.0],
+            vec![4.0, 5.0, 5.0, 0.0],
+        ]),
+        _ => Tsp::random(3, 15, 4.0),
+    }
+}
+const P_INSTANCES: u32 = 7;
+fn p_dim(kind: &str, i: u32) -> usize {
+    match kind { "binary" => p_onemax(i).dim, "perm" => p_tsp(i).dist.len(), _ => p_sphere(i).dim }
+}
+
+#[derive(Clone, Copy)]
+enum Pv { N(u64), F(f64) }
+fn parse_ps(name: &str, x: &Sx) -> Option<Vec<Pv>> {
+    let (h, a) = x.head()?;
+    if h != "ps" { return None; }
+    let spec = param_spec(name);
+    if a.len() != spec.len() { return None; }
+    spec.iter().zip(a).map(|(k, v)| match k { PK::N => v.nat().map(Pv::N), PK::F => v.float().map(Pv::F) }).collect()
+}
+
+/// Builds template `name` from the real constructor at the explicit parameter point `ps`.
+fn pbuild<U: ConfigUser>(name: &str, ps: &[Pv], inst: u32, term: Term, user: U) -> Result<U::Out, String> {
+    let n = |i: usize| match ps[i] { Pv::N(v) => v as u32, Pv::F(v) => v as u32 };
+    let f = |i: usize| match ps[i] { Pv::F(v) => v, Pv::N(v) => v as f64 };
+    macro_rules! go {
+        ($problem:expr, $cfg:expr) => {{
+            let problem = $problem;
+            let cfg = $cfg.map_err(|e| format!("{e}"))?;
+            Ok(user.use_config(&cfg, &problem))
+        }};
+    }
+    match name {
+        "real_ga" => go!(p_sphere(inst), ga::real_ga::<Sphere>(
+            ga::RealProblemParameters { population_size: n(0), tournament_size: n(1), pm: f(2), deviation: f(3), pc: f(4) }, term.cond())),
+        "binary_ga" => go!(p_onemax(inst), ga::binary_ga::<OneMax>(
+            ga::BinaryProblemParameters { population_size: n(0), tournament_size: n(1), rm: f(2), pc: f(3), pm: f(4) }, term.cond())),
+        "real_es" => go!(p_sphere(inst), es::real_mu_plus_lambda_es::<Sphere, ()>(
+            es::RealProblemParameters { population_size: n(0), lambda: n(1), deviation: f(2) }, term.cond())),
+        "real_de" => go!(p_sphere(inst), de::real_de::<Sphere>(
+            de::RealProblemParameters { population_size: n(0), y: n(1), f: f(2), pc: f(3) }, term.cond())),
+        "real_pso" => go!(p_sphere(inst), pso::real_pso::<Sphere>(
+            pso::RealProblemParameters { num_particles: n(0), start_weight: f(1), end_weight: f(2), c_one: f(3), c_two: f(4), v_max: f(5) }, term.cond())),
+        "real_sa" => go!(p_sphere(inst), sa::real_sa::<Sphere>(
+            sa::RealProblemParameters { t_0: f(0), alpha: f(1), deviation: f(2) }, term.cond())),
+        "permutation_sa" => go!(p_tsp(inst), sa::permutation_sa::<Tsp>(
+            sa::PermutationProblemParameters { t_0: f(0), alpha: f(1), num_swap: n(2) }, term.cond())),
+        "real_ls" => go!(p_sphere(inst), ls::real_ls::<Sphere>(
+            ls::RealProblemParameters { n_neighbors: n(0), deviation: f(1) }, term.cond())),
+        "permutation_ls" => go!(p_tsp(inst), ls::permutation_ls::<Tsp>(
+            ls::PermutationProblemParameters { num_neighbors: n(0), num_swap: n(1) }, term.cond())),
+        "real_ils" => go!(p_sphere(inst), ils::real_ils::<Sphere>(
+            ils::RealProblemParameters {
+                ls_params: ls::RealProblemParameters { n_neighbors: n(0), deviation: f(1) },
+                ls_condition: LessThanN::iterations(n(2)),
+            }, term.cond())),
+        "permutation_ils" => go!(p_tsp(inst), ils::permutation_ils::<Tsp>(
+            ils::PermutationProblemParameters {
+                ls_params: ls::PermutationProblemParameters { num_neighbors: n(0), num_swap: n(1) },
+                ls_condition: LessThanN::iterations(n(2)),
+            }, term.cond())),
+        "real_rs" => go!(p_sphere(inst), rs::real_rs::<Sphere>(term.cond())),
+        "permutation_rs" => go!(p_tsp(inst), rs::permutation_rs::<Tsp>(term.cond())),
+        "real_rw" => go!(p_sphere(inst), rw::real_rw::<Sphere>(rw::RealProblemParameters { deviation: f(0) }, term.cond())),
+        "permutation_rw" => go!(p_tsp(inst), rw::permutation_random_walk::<Tsp>(rw::PermutationProblemParameters { num_swap: n(0) }, term.cond())),
+        "real_iwo" => go!(p_sphere(inst), iwo::real_iwo::<Sphere>(
+            iwo::RealProblemParameters {
+                initial_population_size: n(0), max_population_size: n(1), min_number_of_seeds: n(2), max_number_of_seeds: n(3),
+                initial_deviation: f(4), final_deviation: f(5), modulation_index: n(6),
+            }, term.cond())),
+        "real_fa" => go!(p_sphere(inst), fa::real_fa::<Sphere>(
+            fa::RealProblemParameters { pop_size: n(0), alpha: f(1), beta: f(2), gamma: f(3), delta: f(4) }, term.cond())),
+        "real_bh" => go!(p_sphere(inst), bh::real_bh::<Sphere>(bh::RealProblemParameters { num_particles: n(0) }, term.cond())),
+        "real_cro" => go!(p_sphere(inst), cro::real_cro::<Sphere>(
+            cro::RealProblemParameters {
+                initial_population_size: n(0), mole_coll: f(1), kinetic_energy_lr: f(2), alpha: n(3), beta: f(4),
+                initial_kinetic_energy: f(5), buffer: f(6), on_wall_deviation: f(7), decomposition_deviation: f(8),
+            }, term.cond())),
+        "ant_system" => go!(p_tsp(inst), aco::ant_system::<Tsp>(
+            aco::ASParameters::verif_new(n(0) as usize, f(1), f(2), f(3), f(4), f(5)), term.cond())),
+        "max_min_ant_system" => go!(p_tsp(inst), aco::max_min_ant_system::<Tsp>(
+            aco::MMASParameters::verif_new(n(0) as usize, f(1), f(2), f(3), f(4), f(5), f(6)), term.cond())),
+        other => Err(format!("unknown template {other}")),
+    }
+}
+
+struct PRunner { seed: u64 }
+impl ConfigUser for PRunner {
+    type Out = (Rec, Outcome, String);
+    fn use_config<P: HProblem>(self, config: &Configuration<P>, problem: &P) -> (Rec, Outcome, String) {
+        let tree = sertree::to_sexp(config.heuristic()).unwrap_or_else(|e| format!("(ser-error {})", e.to_string().replace(' ', "_")));
+        let shared = Arc::new(Mutex::new(Rec::default()));
+        let seed = self.seed;
+        let outcome;
+        {
+            let obs_v = shared.clone();
+            let obs_p = problem.clone();
+            let r = catch(|| {
+                config.optimize_with(problem, |state: &mut State<P>| {
+                    state.insert(Random::new(seed));
+                    state.insert_evaluator(Sequential::<P>::new());
+                    state.insert(StepObserver::<P>(Box::new(move |ph, name, idx, st| {
+                        obs_v.lock().unwrap().step(ph, name, idx, st, &obs_p);
+                    })));
+                    Ok(())
+                })
+            });
+            match r {
+                None => {
+                    outcome = Outcome::Panic;
+                    shared.lock().unwrap_or_else(|e| e.into_inner()).done::<P>(&outcome, None, problem);
+                }
+                Some(Err(e)) => {
+                    outcome = Outcome::Err(format!("{e}"));
+                    shared.lock().unwrap_or_else(|e| e.into_inner()).done::<P>(&outcome, None, problem);
+                }
+                Some(Ok(state)) => {
+                    outcome = Outcome::Ok;
+                    shared.lock().unwrap_or_else(|e| e.into_inner()).done(&outcome, Some(&state), problem);
+                    drop(state);
+                }
+            }
+        }
+        let rec = std::mem::take(&mut *shared.lock().unwrap_or_else(|e| e.into_inner()));
+        (rec, outcome, tree)
+    }
+}
+
+fn clean(e: &str) -> String { e.replace(|c: char| c.is_whitespace() || c == '(' || c == ')', "_") }
+
+/// `(prun NAME (ps …) INSTANCE SEED (term …) [TREE])` — the run happens in a worker thread under a watchdog.
+fn prun_case(a: &[Sx]) -> String {
+    let name = a[0].atom().unwrap().to_string();
+    let ps = match parse_ps(&name, &a[1]) { Some(p) => p, None => return "((res bad-input))".into() };
+    let (inst, seed) = (a[2].nat().unwrap() as u32, a[3].nat().unwrap());
+    let term = match Term::parse(&a[4]) { Some(t) => t, None => return "((res bad-input))".into() };
+    // features of the instance the run really used (the Lean side's predictions depend on them)
+    let zero_dist = kind_of(&name) == "perm" && {
+        let t = p_tsp(inst);
+        (0..t.dist.len()).any(|i| (0..t.dist.len()).any(|j| i != j && t.dist[i][j] == 0.0))
+    };
+    let dim = p_dim(kind_of(&name), inst);
+    let (tx, rx) = std::sync::mpsc::channel();
+    std::thread::spawn(move || {
+        let r = catch(|| pbuild(&name, &ps, inst, term, PRunner { seed }));
+        let _ = tx.send(r);
+    });
+    match rx.recv_timeout(std::time::Duration::from_secs(60)) {
+        Err(_) => "((res timeout) (msg -) (failed-in -))".into(),
+        Ok(None) => "((res ctor-panic) (msg -) (failed-in -))".into(),
+        Ok(Some(Err(e))) => format!("((res ctor-err) (msg {}))", clean(&e)),
+        Ok(Some(Ok((rec, outcome, tree)))) => list([
+            format!("(res {})", outcome.tag()),
+            format!("(msg {})", match &outcome { Outcome::Err(e) => clean(e), _ => "-".into() }),
+            format!("(failed-in {})", rec.failed_in.clone().unwrap_or("-".into())),
+            format!("(iters {})", rec.iters.map(|i| i.to_string()).unwrap_or("none".into())),
+            format!("(height {})", rec.final_height.map(|i| i.to_string()).unwrap_or("none".into())),
+            format!("(size {})", rec.final_size.map(|i| i.to_string()).unwrap_or("none".into())),
+            format!("(nsteps {})", rec.n_steps),
+            tagged("pcount", rec.pcount.iter().map(|c| c.to_string())),
+            format!("(itouch {})", rec.itouch),
+            tagged("evals", rec.evals_before.iter().map(|c| c.to_string())),
+            format!("(evals-final {})", rec.evals_final),
+            format!("(inst-dim {})", dim),
+            format!("(inst-zero-dist {})", b(zero_dist)),
+            tagged("passes", rec.passes),
+            tagged("steps", rec.steps),
+            format!("(tree {})", tree),
+        ]),
+    }
+}
+
+/// `(ctor NAME (ps …))` — only the constructor.
+fn ctor_case(a: &[Sx]) -> String {
+    let name = a[0].atom().unwrap();
+    let ps = match parse_ps(name, &a[1]) { Some(p) => p, None => return "((res bad-input))".into() };
+    match catch(|| pbuild(name, &ps, 0, Term::Iters(1), Tree)) {
+        None => "((res ctor-panic))".into(),
+        Some(Err(_)) => "((res ctor-err))".into(),
+        Some(Ok(_)) => "((res ok))".into(),
+    }
+}
+
+fn fxs(v: f64) -> String { fx(v) }
+
+/// A parameter point inside the documented domain of template `name` (for a problem of dimension `dim`),
+/// biased towards the boundaries: smallest populations, tournament = population, zero offspring, y with
+/// the smallest admissible population, num_swap at both ends, equal deviations / seeds, rates 0 and 1.
+fn gen_valid(name: &str, r: &mut Sm, dim: usize) -> Vec<String> {
+    let pop = |r: &mut Sm| *r.pick(&[1u64, 1, 2, 2, 3, 4, 5, 7, 8, 12]);
+    let rate = |r: &mut Sm| fxs(*r.pick(&[0.0, 0.0, 0.25, 0.5, 0.9, 1.0, 1.0]));
+    let dev = |r: &mut Sm| fxs(*r.pick(&[1e-9, 0.01, 0.1, 0.5, 1.0, 3.0]));
+    let nonneg = |r: &mut Sm| fxs(*r.pick(&[0.0, 0.0, 0.1, 0.5, 1.0, 2.0, 10.0]));
+    let swap = |r: &mut Sm| { let d = dim.max(2) as u64; let m = r.range(2, d); *r.pick(&[2, 2, d, d, m]) };
+    match name {
+        "real_ga" | "binary_ga" => {
+            let n = pop(r);
+            let m = r.range(1, n);
+            let ts = *r.pick(&[1, n, n, m]);
+            if name == "real_ga" { vec![n.to_string(), ts.to_string(), rate(r), dev(r), rate(r)] }
+            else { vec![n.to_string(), ts.to_string(), rate(r), rate(r), rate(r)] }
+        }
+        "real_es" => { let mu = pop(r); vec![mu.to_string(), r.pick(&[0u64, 1, 1, 2, mu, 2 * mu + 1, 15]).to_string(), dev(r)] }
+        "real_de" => {
+            let y = *r.pick(&[1u64, 2]);
+            let n = *r.pick(&[2 * y, 2 * y, 2 * y + 1, 2 * y + 2, 7, 10]);
+            vec![n.to_string(), y.to_string(), fxs(*r.pick(&[1e-3, 0.5, 1.0, 2.0])), rate(r)]
+        }
+        "real_pso" => vec![pop(r).to_string(), nonneg(r), nonneg(r), nonneg(r), nonneg(r), fxs(*r.pick(&[1e-6, 0.5, 1.0, 100.0]))],
+        "real_sa" => vec![fxs(*r.pick(&[1e-6, 1.0, 100.0, 1e9])), fxs(*r.pick(&[0.0, 0.5, 0.9, 0.999999])), dev(r)],
+        "permutation_sa" => vec![fxs(*r.pick(&[1e-6, 1.0, 100.0, 1e9])), fxs(*r.pick(&[0.0, 0.5, 0.9, 0.999999])), swap(r).to_string()],
+        "real_ls" => vec![r.pick(&[0u64, 1, 1, 2, 5, 9]).to_string(), dev(r)],
+        "permutation_ls" => vec![r.pick(&[0u64, 1, 1, 2, 5, 9]).to_string(), swap(r).to_string()],
+        "real_ils" => vec![r.pick(&[0u64, 1, 2, 5]).to_string(), dev(r), r.pick(&[0u64, 1, 2, 2, 3, 5]).to_string()],
+        "permutation_ils" => vec![r.pick(&[0u64, 1, 2, 5]).to_string(), swap(r).to_string(), r.pick(&[0u64, 1, 2, 2, 3, 5]).to_string()],
+        "real_rs" | "permutation_rs" => vec![],
+        "real_rw" => vec![dev(r)],
+        "permutation_rw" => vec![swap(r).to_string()],
+        "real_iwo" => {
+            let init = pop(r);
+            let max = *r.pick(&[init, init, init + 1, init + 4, 2 * init + 3]);
+            let mx = *r.pick(&[0u64, 1, 1, 2, 3, 5]);
+            let m = r.range(0, mx);
+            let mn = *r.pick(&[0, mx, m]);
+            let d0 = *r.pick(&[0.01, 0.5, 1.0]);
+            let d1 = *r.pick(&[d0, d0, 0.0, d0 / 10.0]);
+            vec![init.to_string(), max.to_string(), mn.to_string(), mx.to_string(), fxs(d0), fxs(d1), r.pick(&[0u64, 1, 2, 3]).to_string()]
+        }
+        "real_fa" => vec![pop(r).to_string(), nonneg(r), nonneg(r), nonneg(r), fxs(*r.pick(&[0.0, 0.5, 0.97, 0.999999]))],
+        "real_bh" => vec![pop(r).to_string()],
+        "real_cro" => vec![pop(r).to_string(), rate(r), fxs(*r.pick(&[0.0, 0.2, 0.5, 0.9, 0.999999])), r.pick(&[0u64, 1, 3, 10, 1000]).to_string(), nonneg(r), nonneg(r), nonneg(r), dev(r), dev(r)],
+        "ant_system" => vec![r.pick(&[0u64, 0, 1, 2, 4, 7]).to_string(), nonneg(r), nonneg(r), fxs(*r.pick(&[1e-3, 0.5, 1.0, 2.0])), rate(r), nonneg(r)],
+        "max_min_ant_system" => {
+            let mn = *r.pick(&[1e-6, 0.1, 1.0]);
+            let mx = mn * *r.pick(&[1.0000001, 2.0, 100.0]);
+            vec![r.pick(&[0u64, 0, 1, 2, 4, 7]).to_string(), nonneg(r), nonneg(r), fxs(*r.pick(&[1e-3, 0.5, 1.0, 2.0])), rate(r), fxs(mx), fxs(mn)]
+        }
+        _ => vec![],
+    }
+}
+
+/// Does every pass of the (outermost) loop of `name` at point `ps` evaluate at least one solution?  Only then is
+/// a pure evaluation budget a termination condition that can be met.
+fn makes_progress(name: &str, ps: &[String]) -> bool {
+    let n = |i: usize| ps[i].parse::<u64>().unwrap_or(0);
+    match name {
+        "real_es" => n(1) >= 1,
+        "real_ls" | "permutation_ls" => n(0) >= 1,
+        "real_iwo" => n(2) >= 1,
+        _ => true,
+    }
+}
+
+/// A parameter point anywhere around the documented domain (inside, on and beyond its borders), for the
+/// constructor stream.
+fn gen_any(name: &str, r: &mut Sm) -> Vec<String> {
+    let spec = param_spec(name);
+    if r.chance(1, 3) {
+        return gen_valid(name, r, 6);
+    }
+    let mut v = gen_valid(name, r, 6);
+    // disturb one to three parameters
+    for _ in 0..r.range(1, 3) {
+        if spec.is_empty() { break; }
+        let i = r.below(spec.len() as u64) as usize;
+        v[i] = match spec[i] {
+            PK::N => r.pick(&[0u64, 0, 1, 2, 3, 4, 9, 1000]).to_string(),
+            PK::F => fxs(*r.pick(&[-1.0, -1e-9, 0.0, 1e-12, 0.5, 1.0, 1.0 + 1e-9, 2.0, 2.5, 1e9, f64::INFINITY, f64::NAN])),
+        };
+    }
+    v
+}
+
+/// Fixed explicit-parameter cases, run on every check: the recorded findings' witnesses and the corners of the
+/// documented parameter domains.
+const FIXED_PRUNS: [&str; 22] = [
+    "(prun real_pso (ps 2 x3fe0000000000000 x0000000000000000 x4024000000000000 x3fe0000000000000 x3eb0c6f7a0b5ed8d) 0 800767 (term evals 0 5))",
+    "(prun real_iwo (ps 2 7 5 5 x3ff0000000000000 x0000000000000000 2) 3 142452 (term evals 0 40))",
+    "(prun ant_system (ps 2 x3fe0000000000000 x3ff0000000000000 x3f50624dd2f1a9fc x3ff0000000000000 x3fe0000000000000) 5 144435 (term evals 0 5))",
+    "(prun max_min_ant_system (ps 1 x3fe0000000000000 x3ff0000000000000 x3f50624dd2f1a9fc x3feccccccccccccd x4000000000000000 x3ff0000000000000) 5 323257 (term either 1 17))",
+    // one individual, tournament of one; tournament = population
+    "(prun real_ga (ps 1 1 x3ff0000000000000 x3fb999999999999a x3ff0000000000000) 4 11 (term iters 5 0))",
+    "(prun binary_ga (ps 7 7 x3fe0000000000000 x3fe0000000000000 x3ff0000000000000) 4 12 (term iters 5 0))",
+    "(prun real_ga (ps 3 3 x0000000000000000 x3fb999999999999a x0000000000000000) 1 13 (term both 9 17))",
+    // no offspring; many more offspring than parents
+    "(prun real_es (ps 1 0 x3fb999999999999a) 0 14 (term iters 4 0))",
+    "(prun real_es (ps 2 15 x3fb999999999999a) 2 15 (term evals 0 40))",
+    // smallest population DEBest accepts, both y
+    "(prun real_de (ps 2 1 x3fe0000000000000 x3fe0000000000000) 0 16 (term iters 5 0))",
+    "(prun real_de (ps 4 2 x4000000000000000 x0000000000000000) 4 17 (term iters 5 0))",
+    // num_swap = 2 on two cities, num_swap = dimension
+    "(prun permutation_sa (ps x3ff0000000000000 x0000000000000000 2) 4 18 (term iters 5 0))",
+    "(prun permutation_rw (ps 8) 1 19 (term iters 5 0))",
+    "(prun permutation_ls (ps 0 2) 6 20 (term iters 3 0))",
+    // local search never entered / entered more often than the outer loop
+    "(prun real_ils (ps 2 x3fb999999999999a 0) 0 21 (term iters 4 0))",
+    "(prun permutation_ils (ps 1 3 5) 6 22 (term iters 2 0))",
+    "(prun permutation_ils (ps 2 2 3) 4 23 (term either 2 9))",
+    // equal seeds, equal deviations, full initial population
+    "(prun real_iwo (ps 4 4 0 0 x3fe0000000000000 x3fe0000000000000 0) 0 24 (term iters 4 0))",
+    "(prun real_iwo (ps 1 5 2 2 x3fe0000000000000 x0000000000000000 3) 4 25 (term both 6 40))",
+    // no sampled ants; two cities
+    "(prun ant_system (ps 0 x3ff0000000000000 x3ff0000000000000 x3ff0000000000000 x3fe0000000000000 x3ff0000000000000) 5 26 (term iters 3 0))",
+    "(prun max_min_ant_system (ps 3 x3ff0000000000000 x3ff0000000000000 x3ff0000000000000 x3fe0000000000000 x4000000000000000 x3fe0000000000000) 4 27 (term iters 3 0))",
+    "(prun real_cro (ps 1 x3fe0000000000000 x3fc999999999999a 3 x3fe0000000000000 x4024000000000000 x0000000000000000 x3fb999999999999a x3fb999999999999a) 4 28 (term either 6 20))",
+];
+
+fn emit_pruns(out: &mut Out, seed: u64, thorough: bool) {
+    for input in FIXED_PRUNS {
+        let sx = Sx::parse(input).unwrap();
+        let name = sx.head().unwrap().1[0].atom().unwrap().to_string();
+        out.case(&format!("p:{}", name), input, &run_case(&sx));
+    }
+    let mut r = Sm::new(seed ^ 0x9A7A);
+    let per = if thorough { 160 } else { 60 };
+    for name in TEMPLATES {
+        let kind = kind_of(name);
+        for k in 0..per {
+            let inst = if k < P_INSTANCES as usize { k as u32 } else { r.below(P_INSTANCES as u64) as u32 };
+            let ps = gen_valid(name, &mut r, p_dim(kind, inst));
+            let progress = makes_progress(name, &ps);
+            let it = *r.pick(&[0u32, 1, 1, 2, 3, 5, 9]);
+            let ev = *r.pick(&[1u32, 5, 17, 40, 90]);
+            let term = match r.below(10) {
+                0..=4 => Term::Iters(it),
+                5 | 6 if progress => Term::Evals(ev),
+                7 => Term::Both(it, ev),
+                // (an iteration bound of 0 inside an OR makes `Progress = x / 0`; not a meaningful condition)
+                8 if progress && it >= 1 => Term::Either(it, ev),
+                _ => Term::Iters(it),
+            };
+            let s = r.next() % 1_000_000;
+            let input = format!("(prun {} (ps {}) {} {} {})", name, ps.join(" "), inst, s, term.render());
+            let sx = Sx::parse(&input).unwrap();
+            out.case(&format!("p:{}", name), &input, &run_case(&sx));
+        }
+        let nc = if thorough { 200 } else { 50 };
+        if param_spec(name).is_empty() { continue; }
+        for _ in 0..nc {
+            let ps = gen_any(name, &mut r);
+            let input = format!("(ctor {} (ps {}))", name, ps.join(" "));
+            let sx = Sx::parse(&input).unwrap();
+            out.case(&format!("ctor:{}", name), &input, &run_case(&sx));
         }
     }
 }
@@ -385,6 +855,7 @@ fn main() {
             }
         }
     }
+    emit_pruns(&mut out, a.seed, a.thorough);
     emit_probes(&mut out, a.seed, a.thorough);
     out.finish();
 }
